@@ -139,3 +139,23 @@ def state_obs(res, oid, where, runs_named, what):
                         rule=f'{oid}.state.{name}')
         out.append(ob)
     return out
+
+
+def strict_codec_obs(res, oid, where, runs_named, what):
+    """Every encode / decode on the data path is strict: with errors='replace' / 'ignore' / ... a character the codec cannot
+    represent (or a byte it cannot decode) is silently replaced or dropped - the bytes written are not the value, the value
+    returned is not the content of its bytes, and text that is not decodable is accepted instead of refused.  -> [Ob]"""
+    from ..decide import definite
+    out = []
+    for name, runs in runs_named:
+        def chk(p, mode):
+            for e in p.events:
+                if e.kind == 'codec' and e.data.get('errors'):
+                    return [definite(f'{what}: .{e.data["op"]}(..., errors={e.data["errors"]!r}) - what the codec cannot '
+                                     f'{"represent" if e.data["op"] == "encode" else "decode"} is silently replaced or dropped instead of '
+                                     f'refused', e.node, firm=True)]
+            return []
+        chk.no_return_ok = True
+        out.append(runs.judge(oid, f'{name}: text is encoded and decoded strictly (no errors= handler that alters data)', where,
+                              '.encode(encoding) / .decode(encoding)', chk, rule=f'{oid}.strict-codec.{name}'))
+    return out
